@@ -52,3 +52,34 @@ Theorem C11_code_trun_tie : forall fuel evs,
 Proof. exact EquivTls.trun_tie. Qed.
 Print Assumptions C11_code_trun_tie.
 
+(* ---- tie to the code (client/session.py GeminiClient._get_single, upload): theorems of coq/Equiv/EquivSession.v (statements there), re-checked against the definitions
+   regenerated from /repo's working tree; see DESIGN.md 11.8 ---- *)
+From NV Require Equiv.EquivSession.
+Theorem C11_code_get_single_tie : ltac:(let t := type of @EquivSession.get_single_tie in exact t).
+Proof. exact (@EquivSession.get_single_tie). Qed.
+Print Assumptions C11_code_get_single_tie.
+
+Theorem C11_code_upload_tie : ltac:(let t := type of @EquivSession.upload_tie in exact t).
+Proof. exact (@EquivSession.upload_tie). Qed.
+Print Assumptions C11_code_upload_tie.
+
+Theorem C11_code_get_single_c11 : ltac:(let t := type of @EquivSession.get_single_c11 in exact t).
+Proof. exact (@EquivSession.get_single_c11). Qed.
+Print Assumptions C11_code_get_single_c11.
+
+Theorem C11_code_upload_c11 : ltac:(let t := type of @EquivSession.upload_c11 in exact t).
+Proof. exact (@EquivSession.upload_c11). Qed.
+Print Assumptions C11_code_upload_c11.
+
+Theorem C11_code_get_single_close_once : ltac:(let t := type of @EquivSession.get_single_close_once in exact t).
+Proof. exact (@EquivSession.get_single_close_once). Qed.
+Print Assumptions C11_code_get_single_close_once.
+
+Theorem C11_code_upload_close_once : ltac:(let t := type of @EquivSession.upload_close_once in exact t).
+Proof. exact (@EquivSession.upload_close_once). Qed.
+Print Assumptions C11_code_upload_close_once.
+
+Theorem C11_code_get_single_protocol_args : ltac:(let t := type of @EquivSession.get_single_protocol_args in exact t).
+Proof. exact (@EquivSession.get_single_protocol_args). Qed.
+Print Assumptions C11_code_get_single_protocol_args.
+
